@@ -29,6 +29,7 @@ type foConfig struct {
 	BackendTTL      time.Duration
 	Observe         bool
 	SliceVals       bool // interface API only: values are of a type that == cannot compare (a slice holding the token)
+	PtrVals         bool // interface API only: values are pointers, one pointer per token (a builder that returns the cached token returns the identical pointer)
 	ForeignExpired  bool // FailoverOf only: the user-supplied typed backend adapts an untyped store and passes its (non-generic) expired-item error through, the item being of another type
 	BareExpired     bool // the (user-supplied) backend reports expiry as the bare ErrExpired sentinel, without the stale item
 }
@@ -46,6 +47,9 @@ func (c foConfig) String() string {
 	}
 	if c.ForeignExpired {
 		s += "/foreign-expired"
+	}
+	if c.PtrVals {
+		s += "/pointer-values"
 	}
 	if c.Observe {
 		s += "/observe"
@@ -458,6 +462,20 @@ func (s foStats) Set(ctx context.Context, name string, v float64, labels ...stri
 type foIface struct {
 	f     *cache.Failover
 	slice bool
+	ptr   func(string) *ptrVal // non-nil: values are interned pointers
+}
+
+// ptrVal is a pointer-typed cached value (memoised / singleton objects are cached like this).
+type ptrVal struct{ Tok string }
+
+var ptrPool sync.Map // token -> *ptrVal
+
+func ptrOf(tok string) *ptrVal {
+	if p, ok := ptrPool.Load(tok); ok {
+		return p.(*ptrVal)
+	}
+	p, _ := ptrPool.LoadOrStore(tok, &ptrVal{Tok: tok})
+	return p.(*ptrVal)
 }
 
 // tokOf extracts the harness token from a stored value (plain string, or the non-comparable slice form).
@@ -467,6 +485,10 @@ func tokOf(v interface{}) (string, bool) {
 		return x, true
 	case ncVal:
 		return x[0], true
+	case *ptrVal:
+		if x != nil {
+			return x.Tok, true
+		}
 	}
 	return "", false
 }
@@ -482,6 +504,9 @@ func (a foIface) Get(ctx context.Context, key []byte, build func(ctx context.Con
 		}
 		if a.slice {
 			return ncVal{s}, nil
+		}
+		if a.ptr != nil {
+			return a.ptr(s), nil
 		}
 		return s, nil
 	})
@@ -574,7 +599,11 @@ func newFoRun(cfg foConfig, keys [][]byte, sc *sched) *foRun {
 			SyncUpdate: cfg.SyncUpdate, SyncRead: cfg.SyncRead, MaxStaleness: cfg.MaxStaleness, FailHard: cfg.FailHard,
 			Logger: logger, Stats: st, ObserveMutability: cfg.Observe,
 		}.Use)
-		r.fo = foIface{f, cfg.SliceVals}
+		fi := foIface{f: f, slice: cfg.SliceVals}
+		if cfg.PtrVals {
+			fi.ptr = ptrOf
+		}
+		r.fo = fi
 	}
 	sc.lockedFn = r.fo.LockedKeys
 	r.script = func(int, int) buildOutcome { return buildOutcome{OK: true} }
@@ -604,6 +633,9 @@ func (r *foRun) prepopulate(rng *rand.Rand, key int, state string) string {
 	var stored interface{} = tok
 	if r.cfg.SliceVals {
 		stored = ncVal{tok}
+	}
+	if r.cfg.PtrVals {
+		stored = ptrOf(tok)
 	}
 	if err := r.be.Write(cache.WithTTL(bg, ttl, false), clone(r.keys[key]), stored); err != nil {
 		panic(err)
